@@ -44,6 +44,9 @@ CLAIMS = {
 
  "C14": ("Structural necessary conditions of exact RTSP framing: wire-sized allocations bounded (16-bit origin or dominating comparison with a constant), header line accumulation bounded, body read errors propagated, the dispatcher reads exactly one unit per call after a peek, packets constructed only by the wire reader, reader and writer agree on the interleaved prefix layout. Does not decide round-trip equality or chunking independence.",
          "SSA dominance/bounds-guard analysis + path-state + constant evaluation", "DESIGN.md §3 C14"),
+
+ "C15": ("Structural necessary conditions of correct, total parameter parsing: decoders convert panics to errors, every bit-reader result depends on the buffer, emulation-prevention removal precedes parsing, the dimension/frame-rate accessors read every syntax element the standards define them from and the decoders parse those elements from the stream, stream metadata taken from the decoded parameter sets. Does not decide numeric equality with the standards.",
+         "SSA data-dependence (interprocedural) + dominance", "DESIGN.md §3 C15"),
 }
 NA = {
  "C16": "pure input/output language equivalence of the pattern matcher over all pattern/path pairs: truth lives in string values, no structural clause implies it; deciding it needs exhaustive evaluation (execution), a different technique family",
